@@ -335,6 +335,8 @@ def check_history(ctx, h, mobs, iobs, pid, strict_order=True):
                 viol.append("in_cache() says %s but the entries are %s" % (o["in_cache"], small))
             for mf in o.get("module_facts", []):
                 viol.append("module-level API: " + mf)
+            for ef in o.get("environment_facts", []):
+                viol.append(ef)
             if o["len"] != len(disk_c):
                 viol.append("len(cache)=%d but %d cache files on disk" % (o["len"], len(disk_c)))
             if op and op["op"] in ("G", "O") and o["res"][0] in ("P", "D"):
